@@ -638,4 +638,77 @@ inductive ReachableRF (c : Cfg) (rw : Bool) (faults : Nat) : RFState → Prop wh
   | step {s a} : ReachableRF c rw faults s → enabledRF c s a = true → ReachableRF c rw faults (stepRF c rw s a)
 
 
+/-! ### phase 6: the read_wait protocol of `MyProcessLine` as programs
+
+`MyProcessLine.run` is `super().run()` (the line: take items until pill / error / `Slice` exhausted), then — iff `start` created
+`_wait` — `self._line[-1].write([self._wait_key])` and `self._wait.wait()`; `MyProcessLine.start` creates and registers the event
+and the key iff a store (the caller's `read_waiters` dict) was handed in; the caller dispatches every value read from the out
+queue with `if read_waiters and isinstance(i, UniqueKey): read_waiters[i].set() else: yield i`.  These three pieces are extracted
+from the source (`Generated/C08ReadWait.lean`) and executed for real by the harness (`rwproto` cases); the theorems
+`readwait_program_*` say that the R layer above (`keyPending` / `wKey` / `keyWait` / `cKey`) is this program. -/
+
+inductive RWOp where
+  | runLine | writeKey | waitCaller
+deriving Repr, DecidableEq
+
+def RWOp.code : RWOp → Nat
+  | .runLine => 0 | .writeKey => 1 | .waitCaller => 2
+
+/-- `MyProcessLine.run` (hasWait = `hasattr(self,'_wait')`) -/
+def workerProgram (hasWait : Bool) : List RWOp :=
+  .runLine :: (if hasWait then [.writeKey, .waitCaller] else [])
+
+/-- `MyProcessLine.start`: event + key are created and registered iff a store was handed in (`rw is not None`), also when
+the store is still empty (the first process of a call) -/
+def startRegisters (store : Bool) (_nonEmpty : Bool) : Bool := store
+
+/-- the caller's dispatch on a value read from the out queue: true = `read_waiters[i].set()`, false = `yield i` -/
+def callerSets (rw isKey : Bool) : Bool := rw && isKey
+
+/-- where lineage `w` is in its program (R layer): 0 = in `runLine`, 1 = before `writeKey`, 2 = in `waitCaller` -/
+def rwPc (s : RState) (w : Nat) : Nat :=
+  if s.keyPending.contains w then 1 else if s.keyWait.contains w then 2 else 0
+
+/-! ### phase 6: two calls on the same Multiprocessor object that are alive at the same time
+
+`filter` is a generator: `g0 = mp.filter(a); g1 = mp.filter(b)` and the caller pulls from both in any order, abandons one while the other
+is open, ….  Everything a call mutates lives on its own `CallState` / local queues (`call = CallState()`), the object is only read
+(`_filter`, `_max_processes`, `_maxtasksperchild`, `_read_wait`), so the joint system is the PRODUCT of two single-call systems:
+a step of one call changes only that call's component.  The harness runs such histories on the real code under one scheduler and the
+driver replays the joint log through `enabled2/step2` (op `trace2`). -/
+inductive Action2 where
+  | first (a : Action) | second (a : Action)
+deriving Repr, DecidableEq
+
+def enabled2 (c1 c2 : Cfg) (s : State × State) : Action2 → Bool
+  | .first a => enabled c1 s.1 a
+  | .second a => enabled c2 s.2 a
+
+def step2 (c1 c2 : Cfg) (s : State × State) : Action2 → State × State
+  | .first a => (step c1 s.1 a, s.2)
+  | .second a => (s.1, step c2 s.2 a)
+
+def runTrace2 (c1 c2 : Cfg) : State × State → List Action2 → Option (State × State)
+  | s, [] => some s
+  | s, a :: as => if enabled2 c1 c2 s a then runTrace2 c1 c2 (step2 c1 c2 s a) as else none
+
+def proj1 : List Action2 → List Action
+  | [] => [] | .first a :: t => a :: proj1 t | .second _ :: t => proj1 t
+def proj2 : List Action2 → List Action
+  | [] => [] | .first _ :: t => proj2 t | .second a :: t => a :: proj2 t
+
+def exOv : Cfg := { n := 1, m := 1, items := [{ id := 0, outs := [1], err := none }] }
+/-- two one-item calls (n = 1, m = 1) alive together: the caller starts both, reads the sibling first -/
+def exOvTrace : List Action2 :=
+  [.first (.wBegin 0), .second (.wBegin 0), .first .mEvent, .second .mEvent, .second .loadTake, .first .loadTake, .first .loadPut, .second .loadPut,
+   .second (.wGet 0), .first (.wGet 0), .second (.wPut 0), .second .cGet, .first (.wPut 0), .first .cGet,
+   .first (.wRetire 0), .second (.wRetire 0), .first .loadFinish, .second .loadFinish, .first .loadTake, .first .loadPut, .second .loadTake, .second .loadPut,
+   .first (.wCallback 0), .second (.wCallback 0), .first (.wBegin 0), .second (.wBegin 0), .first (.wGet 0), .second (.wGet 0),
+   .first (.wCallback 0), .second (.wCallback 0), .second .cGet, .second .mDone, .first .cGet, .first .mDone]
+
+inductive Reachable2 (c1 c2 : Cfg) : State × State → Prop where
+  | init : Reachable2 c1 c2 (init c1, init c2)
+  | step {s a} : Reachable2 c1 c2 s → enabled2 c1 c2 s a = true → Reachable2 c1 c2 (step2 c1 c2 s a)
+
+
 end Coba.C08
